@@ -1,3 +1,4 @@
 -- root of the library: every property module
 import HitenModel.Props.C01
 import HitenModel.Props.C02
+import HitenModel.Props.C13
